@@ -34,9 +34,24 @@ def _init(modname):
 
     C.use_repo()
     _MOD = importlib.import_module(modname)
+    if os.environ.get("VERIF_LINECOV", "1") == "1":
+        from . import linecov
+
+        linecov.start(C.REPO, C.anchor_files(getattr(_MOD, "PROP", "")))
 
 
 def _run_one(case):
+    r = _run_one_raw(case)
+    if os.environ.get("VERIF_LINECOV", "1") == "1" and isinstance(r, dict):
+        from . import linecov
+
+        d = linecov.delta()
+        if d:
+            r["_cov"] = d
+    return r
+
+
+def _run_one_raw(case):
     try:
         return _MOD.run_python(case)
     except Exception as e:  # harness bug, not a verdict
@@ -170,6 +185,10 @@ def main(mod, argv=None):
             model_error = f"{type(e).__name__}: {e}"
             proof_problems.append("model driver failed: " + model_error)
 
+    cov_seen = set()
+    for r in results:
+        for f, l in r.pop("_cov", []) or []:
+            cov_seen.add((f, l))
     stats = C.Stats()
     nontrivial = set()
     for c, r in zip(cases, results):
@@ -199,6 +218,7 @@ def main(mod, argv=None):
     lines = []
     new_failures = {}
     known_hit = {}
+    key_classes = {}        # finding_key of each failing input as generated (before shrinking) -> [count, listed?]
     for i in oracle_fail:
         def still_fails(cand, _mod=mod):
             r = _run_one_inproc(_mod, cand)
@@ -206,6 +226,8 @@ def main(mod, argv=None):
         small = cases[i]
         k = key_of(small, results[i])
         hit = next((f for f in known if f["key"] == k), None)
+        kc = key_classes.setdefault(k, [0, hit is not None])
+        kc[0] += 1
         if hit is None and len(new_failures) < 8:
             small = shrink_case(mod, cases[i], still_fails)
             res_small = _run_one_inproc(mod, small) if small is not cases[i] else results[i]
@@ -270,6 +292,7 @@ def main(mod, argv=None):
         },
         "generator_distribution": stats.dump(),
         "exhaustive": bool(getattr(mod, "EXHAUSTIVE", {}).get(tier, False)),
+        "anchored_line_coverage": _linecov_summary(prop, cov_seen),
         "anchored_sources_changed_since_integration": changed,
         "generator_tier_used": gen_tier,
         "proof_problems": proof_problems[:10],
@@ -277,10 +300,24 @@ def main(mod, argv=None):
     C.write_evidence(prop, tier, seed, coverage, list(mod.ASSUMPTIONS), time.time() - t0, violations)
     for ln in lines:
         print(ln)
+    # triage aid: one line per distinct finding_key class of the oracle failures, with its count (most frequent first)
+    ranked = sorted(key_classes.items(), key=lambda kv: (-kv[1][0], kv[0]))
+    for k, (n, listed) in ranked[:12]:
+        print(f"FAILURE-CLASS property={prop} count={n} listed={'yes' if listed else 'no'} key={k if len(k) <= 160 else k[:157] + '...'}")
+    if len(ranked) > 12:
+        print(f"FAILURE-CLASS property={prop} ... {len(ranked) - 12} more classes, {sum(v[0] for _, v in ranked[12:])} failing inputs")
     print(f"[{prop}] tier={tier} seed={seed} cases={len(cases)} compared={compared} disagreements={len(disagreements)} "
           f"oracle_failures={len(oracle_fail)} known={len(known_hit)} theorems={discharged}/{obligations} "
           f"violations={violations} wall={time.time()-t0:.1f}s")
     return 1 if violations else 0
+
+
+def _linecov_summary(prop, seen):
+    if os.environ.get("VERIF_LINECOV", "1") != "1":
+        return {"enabled": False}
+    from . import linecov
+
+    return linecov.summarise(C.REPO, C.anchor_files(prop), seen)
 
 
 def _run_one_inproc(mod, case):
